@@ -9,6 +9,7 @@ import OutlineModel.Drive.Metrics
 import OutlineModel.Drive.Config
 import OutlineModel.Drive.Shared
 import OutlineModel.Drive.Life
+import OutlineModel.Drive.MConn
 /- Model driver: one op per line on stdin, one result per line on stdout.
    First word selects the engine.  Core only (no Mathlib) so it links as a lean_exe. -/
 open OutlineModel
@@ -22,12 +23,14 @@ structure St where
   mt : Metrics.M := { db := .disabled }
   cfg : Drive.Config.St := {}
   sh : Shared.St := {}
+  mc : MConn.St := {}
 
 def stepLine (st : St) (line : String) : St × String :=
   match (line.trimAscii.toString.splitOn " ").filter (· ≠ "") with
   | "replay" :: args => let (s, o) := Drive.Replay.step st.replay args; ({ st with replay := s }, o)
   | "udp" :: args => let (s, o) := Drive.UDP.step st.udp args; ({ st with udp := s }, o)
   | "auth" :: args => let (s, o) := Drive.Auth.step st.auth args; ({ st with auth := s }, o)
+  | "mc" :: args => let (s, o) := Drive.MConn.stepLine st.mc args; ({ st with mc := s }, o)
   | "life" :: args => (st, Drive.Life.step args)
   | "sh" :: args => let (s, o) := Drive.Shared.stepLine st.sh args; ({ st with sh := s }, o)
   | "cfg" :: args => let (s, o) := Drive.Config.step st.cfg args; ({ st with cfg := s }, o)
